@@ -425,6 +425,38 @@ fn run_case<K: Kit>(ctx: &Ctx, b: &mut Batch, kit: &K, case: &PrmCase) {
     if d.snapshot() != Snap::Roadmap(road.clone()) {
         q.viol("query-changed-roadmap", "snapshot differs after solve".into());
     }
+    // 4b. a query that runs out of time in the middle of the graph search (every clock read
+    //     costs one tick, the budget is a few ticks), then the same query again with all the
+    //     time it needs: the answer must be the first one
+    {
+        {
+            let mut l = d.log.borrow_mut();
+            l.tick_sample = 1_000;
+            l.tick_valid = 1_000;
+        }
+        oxmpl::verif::set_read_cost(1_000);
+        let t = [0u64, 1, 2, 3, 5, 12][(case.n_samples as usize + n) % 6];
+        let cut = d.solve_ns(t * 1_000, true);
+        oxmpl::verif::set_read_cost(0);
+        {
+            let mut l = d.log.borrow_mut();
+            l.tick_sample = MS;
+            l.tick_valid = 0;
+        }
+        if cut == Res::Err(ErrKind::Timeout) {
+            b.count("interrupted_queries", 1);
+        }
+        if matches!(cut, Res::Budget | Res::Panic { .. }) {
+            return;
+        }
+        if d.snapshot() != Snap::Roadmap(road.clone()) {
+            q.viol("query-changed-roadmap", "snapshot differs after an interrupted solve".into());
+        }
+        let again = d.solve_ns(3_600_000_000_000, true);
+        if again != res1 && !matches!(again, Res::Budget | Res::Panic { .. }) {
+            q.viol("query-after-interrupted-query-differs", format!("first {}; after a query with a budget of {t} ticks ({}): {}", res1.short(), cut.short(), again.short()));
+        }
+    }
     // 5. replace the problem: roadmap reused, answer is for P2
     let mut p2 = case.problem.clone();
     p2.start = case.start2.clone();
@@ -501,7 +533,7 @@ pub fn run(tier: Tier, seed: u64) -> i32 {
         }
         ctx.merge(b);
     });
-    for k in ["pairs_at_exactly_the_radius", "roadmaps_with_2plus_milestones", "links_checked", "query_paths", "query_nosolution", "hop_minimality_checks", "unreachable_confirmed_by_reference", "queries[P2]", "queries[P2-after-re-setup]", "repeated_constructions"] {
+    for k in ["pairs_at_exactly_the_radius", "roadmaps_with_2plus_milestones", "links_checked", "query_paths", "query_nosolution", "hop_minimality_checks", "unreachable_confirmed_by_reference", "queries[P2]", "queries[P2-after-re-setup]", "repeated_constructions", "interrupted_queries"] {
         ctx.require(k);
     }
     ctx.finish(
